@@ -5,7 +5,7 @@ CONSTANTS
   Values = {0, 1, 2}
   CfgSet <- MCCfgPair
   BuilderSet = {"std", "half"}
-  AnswerSet <- MCAnswersSingle
+  AnswerSet <- MCAnswersLean
   Headers = {1, 2}
   MaxRounds = 2
   Keys = {1}
